@@ -6,6 +6,11 @@ HERE = os.path.dirname(os.path.dirname(os.path.abspath(__file__)))
 
 # id -> (category, technique, level text, level note, design ref)
 CHECKS = {
+ "C09": ("exploration",
+         "exhaustive enumeration (depth-2 operator pairs) + property-based testing: print/parse round-trip",
+         "Syntax trees are produced by parsing explicitly grouped text, so every tree shape over the operator set is reachable: all 3 300 (outer, inner, side) operator combinations at depth 2 exhaustively, random expression trees to depth 6 over every unary/binary/ternary/postfix/call/template-call/cast/subscript/member/sizeof/constructor node and 37 literal spellings in 6 syntactic positions, whole generated programs, the repository's inputs, and the exporters' own output. Each tree is printed for HLSL and for MSL, parsed again and compared with the original after removing locations. 38 000 trees quick, 1.1 M thorough.",
+         "Trees come from the parser (a shape the parser cannot build, such as a negative literal node, is not covered). Unprintable (ambiguous) trees are counted and skipped. One recorded finding: KF-C09-1 (shared root cause with KF-C04-1).",
+         "DESIGN.md section 3, C09"),
  "C08": ("exploration",
          "fuzzing / property-based testing under supervised worker processes (panic, process death, CPU budget)",
          "Byte strings, token soups, bracket soups, nested parentheses / blocks / cast-like prefixes, generated programs (valid and with 1-3 structural mutations incl. extreme literals and unterminated constructs), mutated copies of the repository's own inputs and a 45-entry catalogue of unsupported or unusual constructs (also crossed with API defines) are compiled for 5 targets x {all, named, no-pipeline} x layout validation x API defines inside supervised worker processes. A panic (caught, keyed by source file + message), a dead worker (stack overflow, abort), an empty diagnostic or CPU time beyond 2 s per 4 KB (re-run alone before reporting) is a violation. 40 000 inputs quick, 1.2 M thorough.",
